@@ -7,7 +7,7 @@ from .. import core, iogen
 ID = "C01"
 MODULE = "Check.IoCheck"
 CASE_TYPE = "IOcase"
-CORR, ORACLE, HYP = "IOcorr", "IOtrue", "IOtrue"
+CORR, ORACLE, HYP = "IOcorr", "IOtrue", "C01hyp"
 FORMATS = ["short_textgrid", "long_textgrid", "json", "textgrid_json"]
 RULE = ("small scope: every trimmed label/name of length <=3 (quick) / <=4 (thorough) over {a, quote, space, newline, =} in an "
         "interval, a point and a name position x short/long format; random textgrids (1-4 tiers, both kinds; labels over letters, "
